@@ -26,12 +26,13 @@ pub struct MemFile {
     /// access there is recorded: used to place a small scenario beyond 2^32 without materialising what lies before it
     pub base: u64,
     pub low_touch: Vec<u64>,
+    read_end: u64,
     seek_result: u64,
 }
 
 impl MemFile {
     pub fn new(data: Vec<u8>, fault: Option<(u64, usize)>) -> Self {
-        Self { data, pos: 0, trace: vec![], nwrites: 0, fault, failing: false, short: None, base: 0, low_touch: vec![], seek_result: 0 }
+        Self { data, pos: 0, trace: vec![], nwrites: 0, fault, failing: false, short: None, base: 0, low_touch: vec![], read_end: u64::MAX, seek_result: 0 }
     }
     fn store(&mut self, buf: &[u8]) {
         if self.pos < self.base {
@@ -85,11 +86,19 @@ impl AsyncRead for MemFile {
             return Poll::Ready(Ok(()));
         }
         let off = ((me.pos - me.base) as usize).min(me.data.len());
-        let k = buf.remaining().min(me.data.len() - off);
+        let mut k = buf.remaining().min(me.data.len() - off);
+        // (in the short mode a read also delivers only a few bytes per call, as a tokio file does beyond 2 MiB; the pieces
+        // of one logical read are recorded as one read)
+        if let Some(s) = me.short { k = k.min(s.max(1)); }
         if k > 0 {
             buf.put_slice(&me.data[off..off + k]);
+            let merged = match (me.short, me.trace.last_mut()) {
+                (Some(_), Some(Tev::Read(n))) if me.read_end == me.pos => { *n += k; true }
+                _ => false,
+            };
             me.pos += k as u64;
-            me.trace.push(Tev::Read(k));
+            me.read_end = me.pos;
+            if !merged { me.trace.push(Tev::Read(k)); }
         }
         Poll::Ready(Ok(()))
     }
